@@ -73,6 +73,14 @@ class PackageSpace:
                             with open(os.path.join(alt, fn), "wb") as g:
                                 g.write(b"<component>\xe9\xff</component>")
                     f.write("__path__.insert(0, %r)\n" % alt)
+                    if self._written % 3 == 0:
+                        # ... and further entries in front of it: the
+                        # package's own directory is the third or fourth
+                        for k in range(1 + self._written % 2):
+                            more = os.path.join(self.root,
+                                                "_alt%d_%s" % (k, name))
+                            os.makedirs(more, exist_ok=True)
+                            f.write("__path__.insert(0, %r)\n" % more)
                     self.split_packages = getattr(self, "split_packages",
                                                   0) + 1
                 else:
